@@ -18,11 +18,11 @@
 (***************************************************************************)
 EXTENDS Integers, Sequences, FiniteSets, TLC, Json, Bitwise
 
-CONSTANTS SmallBound, SmallShift, Range, ClassSet, CoreSet
+CONSTANTS SmallBound, SmallShift, SmallShrCount, Range, ClassSet, CoreSet
 
 VARIABLE row
 
-I == INSTANCE NeoVMInt WITH Bound <- SmallBound, MaxShift <- SmallShift,
+I == INSTANCE NeoVMInt WITH Bound <- SmallBound, MaxShift <- SmallShift, MaxShrCount <- SmallShrCount,
                             CmpUnbounded <- FALSE, InvertUnchecked <- FALSE
 
 -----------------------------------------------------------------------------
@@ -78,7 +78,7 @@ LawBin(op, a, b) ==
         /\ (fit /\ op = "MIN") => ~r.f /\ r.v <= a /\ r.v <= b /\ r.v \in {a, b}
         /\ (fit /\ op = "SHL") => IF b < 0 \/ b > SmallShift THEN r.f
                                   ELSE (r.f <=> ~I!Fits(Dbl(a, b))) /\ (~r.f => r.v = Dbl(a, b))
-        /\ (fit /\ op = "SHR") => IF b < 0 THEN r.f
+        /\ (fit /\ op = "SHR") => IF b < 0 \/ b > SmallShrCount THEN r.f
                                   ELSE ~r.f /\ r.v = Hlv(a, b)
         /\ (fit /\ op \in I!CmpOps) => ~r.f /\ r.v \in {0, 1}
         /\ (fit /\ op = "NUMEQUAL") => (r.v = 1 <=> a = b)
